@@ -177,6 +177,11 @@ def load_variants(prop):
                         note=meta.get("needs", ""))
             v.diff = open(pf).read()
             out.append(v)
+    # behaviour-preserving refactorings written by independent sub-agents: negative controls for every property
+    for pf in sorted(glob.glob(os.path.join(VERIF, "refactors", "*", "patch.diff"))):
+        v = Variant("refactor/" + os.path.basename(os.path.dirname(pf)), "-", None, None)
+        v.diff = open(pf).read()
+        out.append(v)
     return out
 
 
